@@ -588,7 +588,7 @@ func c24Tr(ns, b int) vx.Op {
 
 // c24Alphabet: variant 0 = the full alphabet of the tier; variant 1 = a reduced alphabet for the deeper
 // phase A of the thorough tier (column namespace with every batch kind, row namespace with the
-// repeat/long/growth batches, one op in a second index).
+// repeat/long/growth batches).
 func c24Alphabet(thorough bool, variant int) []vx.Op {
 	c24Init()
 	var a []vx.Op
@@ -603,7 +603,6 @@ func c24Alphabet(thorough bool, variant int) []vx.Op {
 		for _, b := range []int{1, 3, 6} {
 			a = append(a, c24Tr(1, b))
 		}
-		a = append(a, c24Tr(2, 0))
 		return a
 	}
 	nb := 8
@@ -737,7 +736,7 @@ func TestVerif_C24(t *testing.T) {
 		ends += c24PxRunDFS(c, c24Harness(1), 1, 4, kv)
 	}
 	c.AddStates(int64(ends))
-	c.Bound("phaseA", "v0: full alphabet of the tier, depth 3; v1 (thorough): reduced 15-op alphabet, depth 4")
+	c.Bound("phaseA", "v0: full alphabet of the tier, depth 3; v1 (thorough): reduced 14-op alphabet, depth 4")
 	c.Extra("phaseA_wall_s", time.Since(t0).Seconds())
 	// No state-merged phase B here: every writing operation appends to the log, which is part of the
 	// canonical state, so distinct histories of writes never merge (measured: BFS to depth 3 = the DFS
